@@ -2102,10 +2102,16 @@ where
 
             let event_filters = self.req.event_filters()?;
 
+            // Whether a new chunk was just opened and nothing was written to it yet
+            let mut chunked = false;
+
             loop {
                 let finished = self.events.fetch(|events| {
                     metadata.access(|node| {
                         for event in events {
+                            let event_number = event.event_number;
+                            let path = event.path.clone();
+
                             let result = self.event_reader.process_read(
                                 event,
                                 &event_reqs,
@@ -2117,12 +2123,33 @@ where
 
                             if let Err(e) = &result {
                                 if e.code() == ErrorCode::NoSpace {
-                                    return Ok::<_, Error>(false);
+                                    if !chunked {
+                                        return Ok::<_, Error>(false);
+                                    }
+
+                                    // The event does not fit even in an otherwise empty chunk,
+                                    // so sending yet another chunk would never terminate
+                                    error!("Event data too large for a single message");
+
+                                    self.event_reader.skip(event_number);
+
+                                    EventResp::Status(EventStatus::new(
+                                        path,
+                                        IMStatusCode::ResourceExhausted,
+                                        None,
+                                    ))
+                                    .to_tlv(&TLVTag::Anonymous, &mut *wb)?;
+
+                                    *empty = false;
+                                    chunked = false;
+
+                                    continue;
                                 }
                             }
 
                             if result? {
                                 *empty = false;
+                                chunked = false;
                             }
                         }
 
@@ -2141,6 +2168,8 @@ where
                 {
                     return Ok(false);
                 }
+
+                chunked = true;
             }
 
             self.unreserve(wb, 1)?;
